@@ -95,16 +95,16 @@ func init() {
 	frozenSites := map[string]string{
 		bcast + "(*ltBroadcast).buildPendList:it.Value.(*pendBlock)":         "pendBlockList only ever receives *pendBlock values (PushBack in addLtBlock is the single producer)",
 		bcast + "(*ltBroadcast).handleBlockReqList:it.Value.(*blockRequest)": "blockRequestList only ever receives *blockRequest values (PushBack in addBlockRequest is the single producer)",
-		bcast + "(*ltBroadcast).buildPendBlock:pd.sTxHashes[i]":          "i ranges over pd.block.Txs, and a pending block only exists with len(sTxHashes) == TxCount == len(block.Txs) (addLtBlock's admission test, checked below)",
-		bcast + "(*ltBroadcast).buildPendBlock:pd.block.GetTxs()[index]": "index is an element of pd.notExistTxIndices, which this function refills (after resetting it) only with range indices over pd.block.Txs (checked below)",
-		bcast + "(*ltBroadcast).handleBlockReq:details.GetItems()[0]":     "reply of the local blockchain module to GetBlocks with Start == End: exactly one item or an error (ProcGetBlockDetailsMsg); not peer-controlled data",
-		dl + "(*Protocol).availbTask:128 / len(ts)":                          "every call site passes a slice it has just tested to be non-empty (checked below)",
-		dl + "tasks.Remove:t[:task.Index]":                                    "behind `task.Index+1 > t.Size()` → return (checked below); Index is a range index, never negative",
-		dl + "tasks.Remove:t[task.Index + 1:]":                                "behind `task.Index+1 > t.Size()` → return (checked below)",
-		dl + "tasks.Less:t[a]":                                                "sort.Interface method: only sort.Sort calls it, with indices below Len() (checked below)",
-		dl + "tasks.Less:t[b]":                                                "sort.Interface method: only sort.Sort calls it, with indices below Len() (checked below)",
-		dl + "tasks.Swap:t[a]":                                                "sort.Interface method: only sort.Sort calls it, with indices below Len() (checked below)",
-		dl + "tasks.Swap:t[b]":                                                "sort.Interface method: only sort.Sort calls it, with indices below Len() (checked below)",
+		bcast + "(*ltBroadcast).buildPendBlock:~$0.sTxHashes[range($0.block→types.(*Block).GetTxs())#0]":          "i ranges over pd.block.Txs, and a pending block only exists with len(sTxHashes) == TxCount == len(block.Txs) (addLtBlock's admission test, checked below)",
+		bcast + "(*ltBroadcast).buildPendBlock:~$0.block→types.(*Block).GetTxs()[range($0.notExistTxIndices)#1]": "index is an element of pd.notExistTxIndices, which this function refills (after resetting it) only with range indices over pd.block.Txs (checked below)",
+		bcast + "(*ltBroadcast).handleBlockReq:~($recv.API→client.QueueProtocolAPI.GetBlocks(&lit:types.ReqBlocks)#0)→types.(*BlockDetails).GetItems()[0]":     "reply of the local blockchain module to GetBlocks with Start == End: exactly one item or an error (ProcGetBlockDetailsMsg); not peer-controlled data",
+		dl + "(*Protocol).availbTask:~128/len($0)":                          "every call site passes a slice it has just tested to be non-empty (checked below)",
+		dl + "tasks.Remove:~$recv[:$0.Index]":                                    "behind `task.Index+1 > t.Size()` → return (checked below); Index is a range index, never negative",
+		dl + "tasks.Remove:~$recv[$0.Index+1:]":                                "behind `task.Index+1 > t.Size()` → return (checked below)",
+		dl + "tasks.Less:~$recv[$0]":                                                "sort.Interface method: only sort.Sort calls it, with indices below Len() (checked below)",
+		dl + "tasks.Less:~$recv[$1]":                                                "sort.Interface method: only sort.Sort calls it, with indices below Len() (checked below)",
+		dl + "tasks.Swap:~$recv[$0]":                                                "sort.Interface method: only sort.Sort calls it, with indices below Len() (checked below)",
+		dl + "tasks.Swap:~$recv[$1]":                                                "sort.Interface method: only sort.Sort calls it, with indices below Len() (checked below)",
 	}
 	recovered := map[string]string{
 		bcast + "(*broadcastProtocol).handleBroadcastReceive": "its own deferred recover (R33a)",
